@@ -8,6 +8,8 @@
 //	C15X_SIG   decimal signal number: after writing, kill itself with it
 //	C15X_DUMP  path: write a JSON report there (argv, environment, stdin digest, what it is
 //	           about to do) BEFORE writing the payloads / exiting
+//	C15X_PLAN  a write plan "o,N,C;e,N,C;..." replacing C15X_OUT / C15X_ERR: each step writes the next N bytes of
+//	           the stream's pattern (o = stdout, e = stderr; see pat) in separate writes of C bytes
 //	C15X_BG    decimal milliseconds: before exiting, start a detached DESCENDANT (this program
 //	           re-executed with C15X_ROLE=late) that outlives the child, sleeps that long, then
 //	           writes C15X_LATE_OUT (hex) to the inherited stdout and C15X_LATE_ERR (hex) to the
@@ -25,6 +27,7 @@ import (
 	"os"
 	"os/exec"
 	"strconv"
+	"strings"
 	"syscall"
 	"time"
 )
@@ -41,6 +44,48 @@ type report struct {
 	BgMs     int      `json:"bg_ms"`
 	LateOut  string   `json:"late_out"` // hex: written by the descendant to the inherited stdout
 	LateErr  string   `json:"late_err"` // hex
+	Plan     string   `json:"plan"`
+}
+
+// pat is byte i of the pattern of a stream: position dependent (lost, repeated or reordered bytes show), printable,
+// a newline at every 1000th position
+func pat(i, salt int) byte {
+	if i%1000 == 999 {
+		return '\n'
+	}
+	return byte(33 + (i*131+(i>>8)*17+salt)%94)
+}
+
+func runPlan(plan string) {
+	off := map[string]int{}
+	for _, step := range strings.Split(plan, ";") {
+		f := strings.Split(step, ",")
+		if len(f) != 3 {
+			continue
+		}
+		n, _ := strconv.Atoi(f[1])
+		c, _ := strconv.Atoi(f[2])
+		w, salt := os.Stdout, 0
+		if f[0] == "e" {
+			w, salt = os.Stderr, 5
+		}
+		if c <= 0 {
+			c = n
+		}
+		for n > 0 {
+			k := c
+			if k > n {
+				k = n
+			}
+			buf := make([]byte, k)
+			for j := range buf {
+				buf[j] = pat(off[f[0]]+j, salt)
+			}
+			w.Write(buf)
+			off[f[0]] += k
+			n -= k
+		}
+	}
 }
 
 func late() {
@@ -84,6 +129,10 @@ func main() {
 		r.StdinLen = len(in)
 		r.Exit, r.Sig = exit, sig
 		r.Out, r.Err = hex.EncodeToString(out), hex.EncodeToString(errb)
+		r.Plan = os.Getenv("C15X_PLAN")
+		if r.Plan != "" {
+			r.Out, r.Err = "", ""
+		}
 		r.BgMs, _ = strconv.Atoi(os.Getenv("C15X_BG"))
 		if r.BgMs > 0 {
 			r.LateOut, r.LateErr = os.Getenv("C15X_LATE_OUT"), os.Getenv("C15X_LATE_ERR")
@@ -93,8 +142,12 @@ func main() {
 			os.Rename(p+".tmp", p)
 		}
 	}
-	os.Stdout.Write(out)
-	os.Stderr.Write(errb)
+	if plan := os.Getenv("C15X_PLAN"); plan != "" {
+		runPlan(plan)
+	} else {
+		os.Stdout.Write(out)
+		os.Stderr.Write(errb)
+	}
 	if bg, _ := strconv.Atoi(os.Getenv("C15X_BG")); bg > 0 {
 		self, err := os.Executable()
 		if err == nil {
